@@ -401,6 +401,28 @@ class Evolver:
         self.keep_inhabitable([p for st_ in self.doc["structures"][-3:] for p in st_["properties"] if p["name"] != q])
         self.new_structs += [a, mname, s]
         self.edits.append({"edit": "E1-diamond", "structures": [a, mname, s], "property": q})
+        # a true diamond (two parents sharing an ancestor), declared most derived first: X, then its parents, then the ancestor
+        g, pa, pn, x = self.fresh_type_name("VfDg"), self.fresh_type_name("VfDp"), self.fresh_type_name("VfDn"), self.fresh_type_name("VfDx")
+        S_ = {"kind": "base", "name": "string"}
+        how = self.pick(["extends+extends", "extends+mixins", "mixins+mixins"])
+        xdecl = {"name": x, "properties": [{"name": "vfOwnWord", "type": S_, "optional": True}]}
+        ra, rn = {"kind": "reference", "name": pa}, {"kind": "reference", "name": pn}
+        if how == "extends+extends":
+            xdecl["extends"] = [ra, rn]
+        elif how == "extends+mixins":
+            xdecl["extends"], xdecl["mixins"] = [ra], [rn]
+        else:
+            xdecl["mixins"] = [ra, rn]
+        decls = [xdecl,
+                 {"name": pa, "properties": [{"name": "vfLeft", "type": S_}], "extends": [{"kind": "reference", "name": g}]},
+                 {"name": pn, "properties": [{"name": "vfRight", "type": {"kind": "base", "name": "uinteger"}, "optional": True}], "mixins": [{"kind": "reference", "name": g}]},
+                 {"name": g, "properties": [{"name": "vfShared", "type": S_}, {"name": "vfSharedKinds", "type": {"kind": "array", "element": S_}, "optional": True}]}]
+        self.doc["structures"] += decls
+        self.new_structs += [x, pa, pn, g]
+        self.counter += 1
+        self.doc["notifications"].append({"method": f"vf/diamond{self.counter}", "messageDirection": "both", "params": {"kind": "reference", "name": x}})
+        self.edits.append({"edit": "E1-diamond", "structures": [x, pa, pn, g], "property": "vfShared"})
+        self.edits.append({"edit": "E6-new-message", "method": f"vf/diamond{self.counter}", "request": False})
 
     def e_same_name(self) -> None:
         """new structures that reuse one property name with the same value type but different optional/null-admission
@@ -997,7 +1019,7 @@ class Evolver:
         # shuffled), and sometimes in front of the existing ones
         base_n = len(self.base_structs_decl)
         new = self.doc["structures"][base_n:]
-        if len(new) > 1:
+        if len(new) > 1 and "diamond" not in (focus or ""):   # (the diamond focus fixes its own order: most derived first)
             how = self.draw(st.integers(0, 3))
             if how == 1:
                 new = list(reversed(new))
